@@ -7,9 +7,10 @@ COMPONENTS = {
             "internal/cluster/xv_acc_verif.go": "acc/cluster/xv_acc_verif.go",
             "internal/cluster/xv_view_verif.go": "acc/cluster/xv_view_verif.go",
         },
-        "env": {"XV_C17_FINDINGS": "1"},   # the two recorded findings are raised as monitors (matched by known_findings.json)
+        "env": {"XV_C17_FINDINGS": "1"},   # the recorded finding (cap truncation lowers a member's vector entry) is raised as a monitor (matched by known_findings.json)
         "what": ("cluster.ClusterView / NodeState: IsNewerThan, AddMember, RemoveMember, IncrementVersion, in-place status change, "
-                 "recomputeCounts, Snapshot, MergeFromWithOptions (3 strategies, skew off/far/near) vs Cluster/View.v"),
+                 "recomputeCounts, Snapshot, MergeFromWithOptions (3 strategies, skew off/far/near; `changed` compares the merged vector with the "
+                 "vector before the prune) vs Cluster/View.v"),
     },
 }
 
@@ -25,7 +26,12 @@ PROPERTIES = {
                  "ts{1,2}. random: 2-4 nodes each evolving its own view by join / accept-join / gossip-merge / suspect / restart-with-generation-"
                  "bump / rare removal, then pairs, idempotence and triples. ill-formed stream: logical clock 0, key != id, generation <= 0, "
                  "extreme timestamps (int64 wrap in the skew test), non-member vector keys, MaxVersionVectorEntries 1..3, strategy 3/-1, "
-                 "negative skew. non-trivial = both views have members (merge) / the operation takes its non-trivial branch; distinct = distinct input terms"),
+                 "negative skew. non-trivial = both views have members (merge) / the operation takes its non-trivial branch; distinct = distinct input terms. "
+                 "monitors on every merge of every stream (well-formed or not): operand unmodified, no aliasing, no member removed/fabricated/missing, "
+                 "no regression / newest incarnation (well-formed views), epoch not lowered, no member's vector entry lowered (member count within the cap), "
+                 "changed-unsound = members or any vector counter differ although changed=false - unguarded, it covers non-member vector keys and cap "
+                 "truncation (regression of 53b1085: the replayed witnesses RemoveMember(b);IncrementVersion(b);merge and MaxVersionVectorEntries=1 "
+                 "fire it on the code before that commit)"),
         "modelled_not_verified": [
             "Go map[string]*NodeState = finite map without nil entries; map iteration order is irrelevant to every modelled result (each key is visited once and only touches its own key)",
             "Clone / Snapshot are the identity in the functional model: 'stored states are clones' and 'the argument view is never modified' are decided on the implementation only (pointer and Labels-map identity, mutation of snapshots, operand dumps around every call)",
@@ -33,28 +39,36 @@ PROPERTIES = {
             "Generation (int) and LogicalClock (uint64) are unbounded in the model: wrap-around after 2^63 / 2^64 restarts is outside it; the int64 arithmetic of the clock-skew test IS modelled with wrap-around",
             "time.Now() in MergeFromWithOptions is the parameter `now`; the harness passes a nominal clock and places every view timestamp so that the skew branch is the same for any real clock within 10 years of it (checked at start-up)",
             "the restart bump of tryJoinSeeds is inline in an actor handler: the harness transcribes its 9 lines around the real AddMember (the real handler is driven by C18's harness)",
-            "the 'reachable' views of the theorems (Inductive reach) exclude RemoveMember, as the property's quantifier does; WF is proved invariant under RemoveMember too, VVin only while a member remains",
+            "the 'reachable' views of the theorems (Inductive reach) exclude RemoveMember, as the property's quantifier does; WF is proved invariant under RemoveMember too, VVin only while a member remains; the `changed` theorems need no reachability (all views)",
+            "beforeVV := v.VersionVector copies the struct, not the map: the model's 'vector before the prune' is a value; that PruneWithMax/Merge build new maps and never write the old one is what the differential check observes (a stale alias would show up as a wrong changed flag)",
+            "view_merge_before_fix (the changed flag as computed before commit 53b1085) is kept in the model only for the regression Example; it is not compared with any code",
         ],
     },
 }
 
 META = {
     "C17": {
-        "text": ("26 kernel-checked theorems about the Gallina model of ClusterView/NodeState. For all well-formed views (keys = state ids, generation >= 1, "
+        "text": ("24 kernel-checked theorems about the Gallina model of ClusterView/NodeState. For all well-formed views (keys = state ids, generation >= 1, "
                  "logical clock >= 1 - proved invariant of newNodeState, AddMember, RemoveMember, IncrementVersion, status changes, the restart bump, Snapshot "
                  "and merges): the membership (id -> generation, logical clock) of a merge is the pointwise lexicographic maximum, hence commutative, associative, "
                  "idempotent, and ANY merge expression (any order, tree shape, strategy, skew, clock per merge) over the same views yields the same membership = "
                  "union of members each at the newest incarnation any view has; a merge never removes a member, keeps the old state or adopts one that "
-                 "IsNewerThan it, never regresses an incarnation, never lowers epoch / view timestamp / protocol version. Version vector: no member's entry is "
-                 "lowered and `changed` is sound (even exact) under two explicit guards - member count within MaxVersionVectorEntries, every vector key a "
-                 "member. Both guards are shown necessary by kernel-checked reachable witnesses (C17_vv_entry_monotone_refuted, C17_changed_sound_refuted: "
-                 "MaxVersionVectorEntries=1 with two members; C17_changed_sound_nonmember_key_refuted), replayed on the real code on every run. Also refuted "
-                 "with reachable witnesses: commutativity on full member states (same incarnation, different Status), IsNewerThan transitivity without "
-                 "well-formedness (3-cycle with a logical clock of 0), no-regression without well-formedness."),
+                 "IsNewerThan it, never regresses an incarnation, never lowers epoch / view timestamp / protocol version. `changed` is sound AND exact for every "
+                 "pair of views without any side condition (C17_changed_sound, C17_changed_exact: changed iff members, vector as a function id -> counter, epoch, "
+                 "view timestamp or protocol version differ) - since commit 53b1085 the merged vector is compared with the vector before the prune; the two "
+                 "witnesses on which the earlier code returned changed=false are kept as a regression Example against the earlier function and replayed on the "
+                 "real code on every run. Version vector monotonicity is NOT unconditional: no member's entry is lowered under the explicit guard 'member count "
+                 "within MaxVersionVectorEntries' (C17_vv_entry_monotone_partial; with 'every vector key a member' no entry at all, and the vector is the "
+                 "order-independent pointwise maximum); the guard is shown necessary by a kernel-checked reachable witness (C17_vv_entry_monotone_refuted: "
+                 "MaxVersionVectorEntries=1 with two members), replayed on the real code on every run and reported as known finding C17-vv-cap-truncation. A vector "
+                 "key that is no member is dropped by the prune; that lowers no member's entry and is reported by changed. Also refuted with reachable witnesses: "
+                 "commutativity on full member states (same incarnation, different Status), IsNewerThan transitivity without well-formedness (3-cycle with a "
+                 "logical clock of 0), no-regression without well-formedness."),
         "design_ref": "DESIGN.md §4 C17",
         "note": ("Trusted: Coq kernel + vm_compute; ExtrOcamlBasic extraction (cross-checked by vm_compute on a sample each run); the harness; Go maps as finite "
-                 "maps. Clone/aliasing and operand immutability are decided on the implementation only. The clauses 'never lowers a member's version-vector entry' "
-                 "and 'changed is sound' hold only under the stated guards; the guard violation is reachable by configuration (MaxVersionVectorEntries < members)."),
+                 "maps. Clone/aliasing and operand immutability are decided on the implementation only. The clause 'never lowers a member's version-vector entry' "
+                 "holds only under the stated guard; the guard violation is reachable by configuration (MaxVersionVectorEntries < members) and is a recorded, "
+                 "unrepaired finding. The clause 'changed is sound' holds unguarded since commit 53b1085."),
         "technique": "Coq proof (finite-map extensionality, induction over merge expressions and reachability) over a hand-written model + differential correspondence check against the Go code + implementation-side monitors",
     },
 }
